@@ -1,9 +1,714 @@
 //! C04 (RTU CRC), C05 (MBAP framing), C11 (RTU resynchronisation)
-use super::*;
 
-pub fn gen_c04(_out: &mut Out, _rng: &mut Rng, _thorough: bool) {}
-pub fn mon_c04(_out: &mut Out, _l: &str, _r: &str) {}
-pub fn gen_c05(_out: &mut Out, _rng: &mut Rng, _thorough: bool) {}
-pub fn mon_c05(_out: &mut Out, _l: &str, _r: &str) {}
-pub fn gen_c11(_out: &mut Out, _rng: &mut Rng, _thorough: bool) {}
-pub fn mon_c11(_out: &mut Out, _l: &str, _r: &str) {}
+use super::*;
+use crate::spec::MbapItem;
+
+// ================================================================ helpers
+
+/// data bytes of a read script, and what follows them
+pub struct ParsedEvents {
+    pub data: Vec<u8>,
+    pub chunks: Vec<usize>,
+    /// the script contains something else than data / pending (eof, error)
+    pub has_fault: bool,
+    pub ends_with_eof: bool,
+}
+
+pub fn parse_events(evs: &str) -> ParsedEvents {
+    let mut p = ParsedEvents {
+        data: vec![],
+        chunks: vec![],
+        has_fault: false,
+        ends_with_eof: false,
+    };
+    if evs.is_empty() || evs == "-" {
+        return p;
+    }
+    for e in evs.split(',') {
+        p.ends_with_eof = false;
+        if let Some(h) = e.strip_prefix('d') {
+            let b = if h.is_empty() { vec![] } else { p_bytes(h).unwrap() };
+            p.chunks.push(b.len());
+            p.data.extend(b);
+        } else if e == "e" {
+            p.has_fault = true;
+            p.ends_with_eof = true;
+        } else if e == "p" {
+        } else {
+            p.has_fault = true;
+        }
+    }
+    p
+}
+
+/// bytes that can never be taken for a function code by the RTU length tables
+pub fn non_fc(b: u8) -> bool {
+    b == 0x00 || b == 0x80 || (0x41..=0x48).contains(&b) || (0x64..=0x6E).contains(&b)
+}
+
+/// PDU length of an RTU request / response by function code (Modbus PDU layouts);
+/// `None` = unsupported code, `Some(None)` = need more bytes
+fn rtu_pdu_len(s: &[u8], request: bool) -> Option<Option<usize>> {
+    let fc = *s.get(1)?;
+    let at = |i: usize| s.get(i).map(|b| usize::from(*b));
+    if request {
+        Some(match fc {
+            0x01..=0x06 => Some(5),
+            0x07 | 0x0B | 0x0C | 0x11 => Some(1),
+            0x0F | 0x10 => at(6).map(|bc| 6 + bc),
+            0x16 => Some(7),
+            0x18 => Some(3),
+            0x17 => at(10).map(|bc| 10 + bc),
+            _ => return None,
+        })
+    } else {
+        Some(match fc {
+            0x01..=0x04 | 0x0C | 0x11 | 0x17 => at(2).map(|bc| 2 + bc),
+            0x05 | 0x06 | 0x0B | 0x0F | 0x10 => Some(5),
+            0x07 => Some(2),
+            0x16 => Some(7),
+            0x18 => match (at(2), at(3)) {
+                (Some(h), Some(l)) => Some(3 + h * 256 + l),
+                _ => None,
+            },
+            0x81..=0xAB => Some(2),
+            _ => return None,
+        })
+    }
+}
+
+/// Split a stream that consists only of valid RTU frames; `None` if it does not.
+pub fn split_rtu_clean(s: &[u8], request: bool) -> Option<Vec<(u8, Vec<u8>)>> {
+    let mut out = vec![];
+    let mut i = 0;
+    while i < s.len() {
+        let len = rtu_pdu_len(&s[i..], request)??;
+        let end = i + 1 + len + 2;
+        if end > s.len() {
+            return None;
+        }
+        if spec::crc_wire(&s[i..i + 1 + len]) != s[i + 1 + len..end] {
+            return None;
+        }
+        out.push((s[i], s[i + 1..i + 1 + len].to_vec()));
+        i = end;
+    }
+    Some(out)
+}
+
+fn render_req_item(slave_tok: &str, pdu: &[u8]) -> Option<String> {
+    match spec::classify_request(pdu) {
+        Verdict::Accept(r) => Some(format!("item {slave_tok}:{}", request(&r))),
+        Verdict::Reject => Some("err".into()),
+        Verdict::Unspecified => None,
+    }
+}
+
+fn render_rsp_item(slave_tok: &str, pdu: &[u8]) -> Option<String> {
+    if pdu.first().is_some_and(|b| *b >= 0x80) {
+        if pdu.len() >= 2 {
+            return Some(format!(
+                "item {slave_tok}:E={}:{}",
+                hex8(pdu[0] - 0x80),
+                hex8(pdu[1])
+            ));
+        }
+        return Some("err".into());
+    }
+    match spec::classify_response(pdu) {
+        Verdict::Accept(r) => Some(format!("item {slave_tok}:R={}", response(&r))),
+        Verdict::Reject => Some("err".into()),
+        Verdict::Unspecified => None,
+    }
+}
+
+fn strip_err_kinds(tokens: &[&str]) -> Vec<String> {
+    tokens
+        .iter()
+        .map(|t| {
+            if t.starts_with("err:") {
+                "err".to_string()
+            } else {
+                (*t).to_string()
+            }
+        })
+        .collect()
+}
+
+fn result_tokens(r: &str) -> Vec<String> {
+    let body = r.split(" ; buf ").next().unwrap_or("");
+    strip_err_kinds(&body.split(" | ").collect::<Vec<_>>())
+}
+
+// ================================================================ C05
+
+fn gen_tcp_frame(rng: &mut Rng, codec: &str) -> Vec<u8> {
+    let tid = rng.u16();
+    let unit = rng.u8();
+    let pdu = match codec {
+        "tcpsrv" => spec::request_bytes(&gen_request(rng, None)).unwrap_or(vec![0x11]),
+        "tcpcli" => {
+            if rng.chance(1, 5) {
+                vec![rng.u8() | 0x80, rng.u8()]
+            } else {
+                spec::response_bytes(&gen_response(rng, None)).unwrap_or(vec![0x07, 0])
+            }
+        }
+        _ => {
+            let n = match rng.below(8) {
+                0 => 0,
+                1 => 1,
+                2 => 252,
+                3 => 253,
+                4 => 254,
+                5 => rng.range(255, 2000),
+                _ => rng.range(0, 40),
+            };
+            rng.bytes(n)
+        }
+    };
+    let pdu = if pdu.len() > 65534 { pdu[..65534].to_vec() } else { pdu };
+    spec::mbap(tid, unit, &pdu)
+}
+
+pub fn gen_c05(out: &mut Out, rng: &mut Rng, thorough: bool) {
+    // exhaustive compositions of short streams (1 or 2 minimal frames, header fragments)
+    let max_exh = if thorough { 17 } else { 14 };
+    let mut shorts: Vec<Vec<u8>> = vec![];
+    for _ in 0..(if thorough { 6 } else { 3 }) {
+        // two frames: empty PDU + tiny PDU
+        let mut s = spec::mbap(rng.u16(), rng.u8(), &[]);
+        let k = max_exh - 14;
+        s.extend(spec::mbap(rng.u16(), rng.u8(), &rng.bytes_in(0, k)));
+        shorts.push(s);
+        // one frame with a few PDU bytes
+        shorts.push(spec::mbap(rng.u16(), rng.u8(), &rng.bytes_in(1, max_exh - 7)));
+        // a frame followed by a header fragment
+        let mut s = spec::mbap(rng.u16(), rng.u8(), &rng.bytes_in(0, 2));
+        s.extend(&spec::mbap(rng.u16(), rng.u8(), &[1, 2, 3])[..rng.range(1, 5)]);
+        shorts.push(s);
+        // invalid protocol id, zero length
+        let mut bad = spec::mbap(rng.u16(), rng.u8(), &rng.bytes_in(0, 3));
+        bad[3] = 1 + rng.u8() % 255;
+        shorts.push(bad);
+        let mut bad = spec::mbap(rng.u16(), rng.u8(), &[]);
+        bad[5] = 0;
+        bad.extend(rng.bytes_in(0, 3));
+        shorts.push(bad);
+    }
+    for s in &shorts {
+        for chunks in all_chunkings(s) {
+            monitor_line(out, &format!("stream tcpadu {}", chunks_tok(&chunks)));
+        }
+    }
+    // every value class of the length field, pipelined frames, random chunkings
+    let n = if thorough { 200_000 } else { 6_000 };
+    for i in 0..n {
+        let codec = ["tcpadu", "tcpsrv", "tcpcli"][i % 3];
+        let frames = rng.range(1, 4);
+        let mut s = vec![];
+        for _ in 0..frames {
+            s.extend(gen_tcp_frame(rng, codec));
+        }
+        match rng.below(12) {
+            0 => {
+                // non-zero protocol id in a random frame position: simply corrupt the first one
+                s[2] = rng.u8();
+                s[3] = 1 | rng.u8();
+            }
+            1 => {
+                let mut z = spec::mbap(rng.u16(), rng.u8(), &[]);
+                z[5] = 0;
+                z[4] = 0;
+                s.extend(z);
+                s.extend(rng.bytes_in(0, 9));
+            }
+            2 => {
+                // truncated tail
+                let k = rng.below(s.len());
+                s.truncate(k);
+            }
+            _ => {}
+        }
+        let parts = rng.composition(s.len());
+        let mut evs = chunks_tok(&chunk(&s, &parts));
+        if rng.chance(1, 4) {
+            evs.push_str(if evs.is_empty() { "e" } else { ",e" });
+        }
+        if rng.chance(1, 8) {
+            evs = evs.replacen(",", ",p,", 1);
+        }
+        monitor_line(out, &format!("stream {codec} {evs}"));
+    }
+    // the extreme length field values
+    for len_field in [1usize, 2, 254, 255, 256, 257, 4096, 65534, 65535] {
+        let pdu = rng.bytes(len_field - 1);
+        let mut s = spec::mbap(rng.u16(), rng.u8(), &pdu);
+        s.extend(spec::mbap(7, 7, &[0x42]));
+        let mut chunks = vec![];
+        let mut at = 0;
+        while at < s.len() {
+            let k = rng.range(1, 3000).min(s.len() - at);
+            chunks.push(s[at..at + k].to_vec());
+            at += k;
+        }
+        monitor_line(out, &format!("stream tcpadu {}", chunks_tok(&chunks)));
+    }
+    // transmitted frames: protocol id 0, length = PDU length + 1
+    for _ in 0..(if thorough { 40_000 } else { 3_000 }) {
+        let r = gen_request(rng, None);
+        monitor_line(out, &format!("tcpreq {} {} {}", hex16(rng.u16()), hex8(rng.u8()), request(&r)));
+        let r = gen_response(rng, None);
+        monitor_line(out, &format!("tcprsp {} {} R={}", hex16(rng.u16()), hex8(rng.u8()), response(&r)));
+        let fc = rng.u8() & 0x7F;
+        monitor_line(out, &format!("tcprsp {} {} E={}:{}", hex16(rng.u16()), hex8(rng.u8()), hex8(fc), hex8(rng.u8())));
+    }
+}
+
+pub fn mon_c05(out: &mut Out, l: &str, r: &str) {
+    let t: Vec<&str> = l.split(' ').collect();
+    match t.as_slice() {
+        ["stream", codec, evs] => {
+            let pe = parse_events(evs);
+            let items = spec::split_mbap(&pe.data);
+            let got = result_tokens(r);
+            let mut expect: Vec<String> = vec![];
+            let mut open_end = false;
+            for it in &items {
+                match it {
+                    MbapItem::Frame(tid, unit, pdu) => {
+                        let h = format!("{}:{}", hex16(*tid), hex8(*unit));
+                        let e = match *codec {
+                            "tcpadu" => Some(format!("item {h}:{}", hex(pdu))),
+                            "tcpsrv" => render_req_item(&h, pdu),
+                            "tcpcli" => render_rsp_item(&h, pdu),
+                            _ => None,
+                        };
+                        match e {
+                            Some(e) => {
+                                let is_err = e == "err";
+                                expect.push(e);
+                                if is_err {
+                                    open_end = true;
+                                    break;
+                                }
+                            }
+                            None => {
+                                open_end = true;
+                                break;
+                            }
+                        }
+                    }
+                    MbapItem::Invalid => {
+                        expect.push("err".into());
+                        open_end = true;
+                        break;
+                    }
+                    MbapItem::Incomplete => {
+                        // nothing may be delivered for it; at end of stream it is an error
+                        expect.push(if pe.ends_with_eof { "err".into() } else { "blocked".into() });
+                        open_end = true;
+                        break;
+                    }
+                }
+            }
+            let n = expect.len();
+            let ok_prefix = got.len() >= n && got[..n] == expect[..];
+            out.check(ok_prefix, || format!("frames delivered differ from the MBAP split of the stream: expected {:?}… got {:?}", trunc_v(&expect), trunc_v(&got)), l);
+            if !open_end && ok_prefix {
+                // the whole stream was clean frames: nothing else may be delivered
+                let rest_ok = got[n..].iter().all(|t| t == "blocked" || t == "done" || (pe.has_fault && t.starts_with("err")));
+                out.check(rest_ok, || format!("something was delivered beyond the frames of the stream: {:?}", trunc_v(&got[n..].to_vec())), l);
+            }
+        }
+        ["tcpreq", tid, u, _] | ["tcprsp", tid, u, _] => {
+            if let Some(h) = r.strip_prefix("ok ") {
+                let f = p_bytes(h).unwrap();
+                let ok = f.len() >= 7
+                    && f[0..2] == p_bytes(tid).unwrap()[..]
+                    && f[2] == 0
+                    && f[3] == 0
+                    && usize::from(f[4]) * 256 + usize::from(f[5]) == f.len() - 6
+                    && f[6] == p_u8(u).unwrap();
+                out.check(ok, || format!("transmitted MBAP header is wrong: {}", hex(&f[..f.len().min(7)])), l);
+            }
+        }
+        _ => {}
+    }
+}
+
+fn trunc_v(v: &Vec<String>) -> Vec<String> {
+    v.iter().take(6).map(|s| super::codec::trunc(s)).collect()
+}
+
+// ================================================================ C04
+
+fn gen_rtu_frame(rng: &mut Rng, request: bool, slave: Option<u8>) -> Vec<u8> {
+    let slave = slave.unwrap_or_else(|| rng.u8());
+    loop {
+        let pdu = if request {
+            match rng.below(10) {
+                0 => vec![*rng.pick(&[0x07u8, 0x0B, 0x0C])],
+                1 => vec![0x18, rng.u8(), rng.u8()],
+                _ => {
+                    let r = gen_request(rng, None);
+                    if matches!(r, Request::Custom(..)) {
+                        continue;
+                    }
+                    match spec::request_bytes(&r) {
+                        Some(b) if b.len() <= 253 => b,
+                        _ => continue,
+                    }
+                }
+            }
+        } else {
+            match rng.below(10) {
+                0 => vec![(rng.u8() % 0x2B) + 0x81, rng.u8()],
+                1 => vec![0x07, rng.u8()],
+                2 => vec![0x0B, rng.u8(), rng.u8(), rng.u8(), rng.u8()],
+                _ => {
+                    let r = gen_response(rng, None);
+                    if matches!(r, Response::Custom(..)) {
+                        continue;
+                    }
+                    match spec::response_bytes(&r) {
+                        Some(b) if b.len() <= 253 => b,
+                        _ => continue,
+                    }
+                }
+            }
+        };
+        return spec::rtu_frame(slave, &pdu);
+    }
+}
+
+fn one_chunk_or_random(rng: &mut Rng, s: &[u8]) -> String {
+    if rng.chance(1, 3) {
+        chunks_tok(&[s.to_vec()])
+    } else {
+        let parts = rng.composition(s.len());
+        chunks_tok(&chunk(s, &parts))
+    }
+}
+
+pub fn gen_c04(out: &mut Out, rng: &mut Rng, thorough: bool) {
+    // the CRC function itself
+    monitor_line(out, "crc -");
+    for a in 0..=255u8 {
+        monitor_line(out, &format!("crc {}", hex8(a)));
+    }
+    for a in 0..=255u8 {
+        for b in 0..=255u8 {
+            if thorough || (usize::from(a) * 256 + usize::from(b)) % 7 == 0 {
+                monitor_line(out, &format!("crc {}{}", hex8(a), hex8(b)));
+            }
+        }
+    }
+    monitor_line(out, &format!("crc {}", hex(b"123456789")));
+    for _ in 0..(if thorough { 200_000 } else { 10_000 }) {
+        let d = rng.bytes_in(0, 300);
+        monitor_line(out, &format!("crc {}", hex(&d)));
+    }
+    // transmitted frames
+    for _ in 0..(if thorough { 40_000 } else { 3_000 }) {
+        let r = gen_request(rng, None);
+        monitor_line(out, &format!("rtureq {} {}", hex8(rng.u8()), request(&r)));
+        let r = gen_response(rng, None);
+        monitor_line(out, &format!("rtursp {} R={}", hex8(rng.u8()), response(&r)));
+        let fc = rng.u8() & 0x7F;
+        monitor_line(out, &format!("rtursp {} E={}:{}", hex8(rng.u8()), hex8(fc), hex8(rng.u8())));
+    }
+    // corruptions of valid frames
+    let samples = if thorough { 200 } else { 16 };
+    for i in 0..samples {
+        let request = i % 2 == 0;
+        let codec = if request { "rtusrv" } else { "rtucli" };
+        let frame = loop {
+            let f = gen_rtu_frame(rng, request, None);
+            if f.len() <= 40 {
+                break f;
+            }
+        };
+        let tail = gen_rtu_frame(rng, request, None);
+        let send = |out: &mut Out, rng: &mut Rng, damaged: &[u8]| {
+            // the damaged frame is followed by an intact one
+            let mut s = damaged.to_vec();
+            s.extend(&tail);
+            let evs = one_chunk_or_random(rng, &s);
+            monitor_line(out, &format!("stream {codec} {evs}"));
+        };
+        // every single-bit corruption
+        for bit in 0..frame.len() * 8 {
+            let mut d = frame.clone();
+            d[bit / 8] ^= 1 << (bit % 8);
+            send(out, rng, &d);
+        }
+        // all 65536 values of the CRC field (thinned in the quick tier)
+        let n = frame.len();
+        let step = if thorough { 1 } else { 16 };
+        let off = rng.below(step);
+        for v in (off..65536).step_by(step) {
+            let mut d = frame.clone();
+            d[n - 2] = (v >> 8) as u8;
+            d[n - 1] = v as u8;
+            send(out, rng, &d);
+        }
+        // double-bit corruptions and bursts of up to 16 bits
+        for _ in 0..(if thorough { 3000 } else { 400 }) {
+            let mut d = frame.clone();
+            if rng.bool() {
+                let a = rng.below(n * 8);
+                let mut b = rng.below(n * 8);
+                if a == b {
+                    b = (b + 1) % (n * 8);
+                }
+                d[a / 8] ^= 1 << (a % 8);
+                d[b / 8] ^= 1 << (b % 8);
+            } else {
+                let len = rng.range(2, 16);
+                let start = rng.below(n * 8 - len + 1);
+                // a burst: first and last bit flipped, the ones in between at random
+                for k in 0..len {
+                    if k == 0 || k == len - 1 || rng.bool() {
+                        let bit = start + k;
+                        d[bit / 8] ^= 1 << (bit % 8);
+                    }
+                }
+            }
+            send(out, rng, &d);
+        }
+    }
+    // random noise with embedded frames
+    for i in 0..(if thorough { 60_000 } else { 3_000 }) {
+        let request = i % 2 == 0;
+        let codec = if request { "rtusrv" } else { "rtucli" };
+        let mut s = vec![];
+        for _ in 0..rng.range(1, 4) {
+            match rng.below(3) {
+                0 => s.extend(rng.bytes_in(0, 12)),
+                1 => {
+                    let n = rng.range(0, 12);
+                    s.extend((0..n).map(|_| if rng.bool() { 0x00 } else { 0x80 + (rng.u8() & 1) * 0xC5 }));
+                }
+                _ => {}
+            }
+            s.extend(gen_rtu_frame(rng, request, None));
+        }
+        let evs = one_chunk_or_random(rng, &s);
+        monitor_line(out, &format!("stream {codec} {evs}"));
+    }
+}
+
+/// Locate each delivered frame in the received stream: CRC-valid slices, in stream
+/// order, not overlapping.  Returns an error description for the first frame that
+/// cannot be located.
+fn locate_items(stream: &[u8], items: &[String], request: bool) -> Result<(), String> {
+    let mut cur = 0usize;
+    for it in items {
+        let mut best: Option<usize> = None;
+        for p in cur..stream.len() {
+            // running CRC over stream[p..p+l]
+            let slave_tok = hex8(stream[p]);
+            let max_l = (stream.len() - p).saturating_sub(2).min(259);
+            let mut reg = 0xFFFFu16;
+            for l in 1..=max_l {
+                reg = spec::crc_step(reg, stream[p + l - 1]);
+                if l < 2 {
+                    continue;
+                }
+                let end = p + l + 2;
+                if let Some(b) = best {
+                    if end >= b {
+                        break;
+                    }
+                }
+                if spec::crc_fin(reg) != stream[p + l..end] {
+                    continue;
+                }
+                let pdu = &stream[p + 1..p + l];
+                let rendered = if request {
+                    render_req_item(&slave_tok, pdu)
+                } else {
+                    render_rsp_item(&slave_tok, pdu)
+                };
+                if rendered.as_deref() == Some(it.as_str()) {
+                    best = Some(end);
+                }
+            }
+        }
+        match best {
+            Some(end) => cur = end,
+            None => {
+                return Err(format!(
+                    "delivered frame `{}` is not a CRC-valid slice of the received stream after offset {cur}",
+                    super::codec::trunc(it)
+                ))
+            }
+        }
+    }
+    Ok(())
+}
+
+pub fn mon_c04(out: &mut Out, l: &str, r: &str) {
+    let t: Vec<&str> = l.split(' ').collect();
+    match t.as_slice() {
+        ["crc", h] => {
+            let d = p_bytes(h).unwrap();
+            let expect = hex16(spec::crc16_modbus(&d).swap_bytes());
+            out.check(r == expect, || format!("CRC-16/MODBUS of the data is {expect}, library computed {r}"), l);
+        }
+        ["rtureq", ..] | ["rtursp", ..] => {
+            if let Some(h) = r.strip_prefix("ok ") {
+                let f = p_bytes(h).unwrap();
+                let n = f.len();
+                let ok = n >= 4 && spec::crc_wire(&f[..n - 2]) == f[n - 2..];
+                out.check(ok, || format!("transmitted frame does not end with the CRC of its address and PDU: {}", super::codec::trunc(h)), l);
+            }
+        }
+        ["stream", codec, evs] if codec.starts_with("rtu") => {
+            let pe = parse_events(evs);
+            let got = result_tokens(r);
+            let items: Vec<String> = got.iter().filter(|t| t.starts_with("item ")).cloned().collect();
+            let res = locate_items(&pe.data, &items, *codec == "rtusrv");
+            out.check(res.is_ok(), || res.clone().unwrap_err(), l);
+        }
+        _ => {}
+    }
+}
+
+// ================================================================ C11
+
+pub fn gen_c11(out: &mut Out, rng: &mut Rng, thorough: bool) {
+    // clean pipelined streams: exhaustive compositions for short ones, random beyond
+    let exh = if thorough { 16 } else { 13 };
+    for i in 0..(if thorough { 40 } else { 12 }) {
+        let request = i % 2 == 0;
+        let codec = if request { "rtusrv" } else { "rtucli" };
+        let mut s = vec![];
+        loop {
+            let f = gen_rtu_frame(rng, request, None);
+            if s.len() + f.len() > exh {
+                if s.is_empty() {
+                    continue;
+                }
+                break;
+            }
+            s.extend(f);
+        }
+        for chunks in all_chunkings(&s) {
+            monitor_line(out, &format!("stream {codec} {}", chunks_tok(&chunks)));
+        }
+    }
+    for i in 0..(if thorough { 100_000 } else { 4_000 }) {
+        let request = i % 2 == 0;
+        let codec = if request { "rtusrv" } else { "rtucli" };
+        let mut s = vec![];
+        for _ in 0..rng.range(1, 5) {
+            s.extend(gen_rtu_frame(rng, request, None));
+        }
+        let parts = rng.composition(s.len());
+        monitor_line(out, &format!("stream {codec} {}", chunks_tok(&chunk(&s, &parts))));
+    }
+    // noise that cannot be mistaken for the start of a frame, then a frame
+    let alphabet: Vec<u8> = (0..=255u8).filter(|b| non_fc(*b)).collect();
+    let frames = if thorough { 2_000 } else { 120 };
+    let max_noise = if thorough { 4096 } else { 25 };
+    for i in 0..frames {
+        let request = i % 2 == 0;
+        let codec = if request { "rtusrv" } else { "rtucli" };
+        let slave = *rng.pick(&alphabet);
+        let frame = gen_rtu_frame(rng, request, Some(slave));
+        let lens: Vec<usize> = if thorough && i % 50 == 0 {
+            vec![max_noise, 1000, 257, 256, 255, 100]
+        } else {
+            (0..=25).collect()
+        };
+        for &n in &lens {
+            let noise: Vec<u8> = (0..n).map(|_| *rng.pick(&alphabet)).collect();
+            let mut s = noise.clone();
+            s.extend(&frame);
+            // byte by byte: any amount of noise
+            let bytewise: Vec<Vec<u8>> = s.iter().map(|b| vec![*b]).collect();
+            monitor_line(out, &format!("stream {codec} {}", chunks_tok(&bytewise)));
+            if n <= 25 {
+                // one chunk and random chunkings
+                monitor_line(out, &format!("stream {codec} {}", chunks_tok(&[s.clone()])));
+                for _ in 0..(if thorough { 20 } else { 4 }) {
+                    let parts = rng.composition(s.len());
+                    monitor_line(out, &format!("stream {codec} {}", chunks_tok(&chunk(&s, &parts))));
+                }
+            }
+        }
+    }
+    // the length tables themselves
+    for fc in 0..=255u8 {
+        for bc in [0u8, 1, 2, 7, 0x7F, 0xFF] {
+            for len in [0usize, 1, 2, 3, 4, 7, 11, 12] {
+                let mut b = vec![0x11, fc, bc, bc, 0, 0, bc, 0, 0, 0, bc, 0];
+                b.truncate(len);
+                monitor_line(out, &format!("reqlen {}", hex(&b)));
+                monitor_line(out, &format!("rsplen {}", hex(&b)));
+            }
+        }
+    }
+}
+
+pub fn mon_c11(out: &mut Out, l: &str, r: &str) {
+    let t: Vec<&str> = l.split(' ').collect();
+    if let ["stream", codec, evs] = t.as_slice() {
+        if !codec.starts_with("rtu") {
+            return;
+        }
+        let request = *codec == "rtusrv";
+        let pe = parse_events(evs);
+        if pe.has_fault {
+            return;
+        }
+        let got = result_tokens(r);
+        let render = |frames: &[(u8, Vec<u8>)]| -> Option<Vec<String>> {
+            frames
+                .iter()
+                .map(|(s, pdu)| {
+                    let e = if request {
+                        render_req_item(&hex8(*s), pdu)
+                    } else {
+                        render_rsp_item(&hex8(*s), pdu)
+                    };
+                    // only frames whose PDU the library is specified to accept
+                    e.filter(|x| x != "err")
+                })
+                .collect()
+        };
+        // (a) a stream of valid frames only
+        if let Some(frames) = split_rtu_clean(&pe.data, request) {
+            if let Some(mut expect) = render(&frames) {
+                expect.push("blocked".into());
+                out.check(got == expect, || format!("clean stream not delivered completely and in order: expected {:?} got {:?}", trunc_v(&expect), trunc_v(&got)), l);
+            }
+            return;
+        }
+        // (b) noise that cannot be mistaken for a frame start, then one valid frame
+        let k = pe.data.iter().take_while(|b| non_fc(**b)).count();
+        // the frame's slave id is itself such a byte: try every split point of the prefix
+        for cut in (0..=k).rev() {
+            if cut == pe.data.len() {
+                continue;
+            }
+            if let Some(frames) = split_rtu_clean(&pe.data[cut..], request) {
+                if frames.len() != 1 || !non_fc(frames[0].0) {
+                    continue;
+                }
+                let noise = cut;
+                let bytewise = pe.chunks.iter().all(|c| *c <= 1);
+                if noise == 0 || !(bytewise || noise <= 16) {
+                    return;
+                }
+                if let Some(mut expect) = render(&frames) {
+                    expect.push("blocked".into());
+                    out.check(got == expect, || format!("frame after {noise} noise byte(s) not delivered exactly once: expected {:?} got {:?}", trunc_v(&expect), trunc_v(&got)), l);
+                }
+                return;
+            }
+        }
+    }
+}
